@@ -40,6 +40,38 @@ let () =
         | TErr -> "err"
         | TPanic -> "panic" in
       { model = m; spec = "-"; cls = "" });
+  (* shapec / shaper: the calculator (MODEL shape_concat / shape_repeat) and the executed operation
+     (MODEL m_concat / m_repeat on row-major tensors); SPEC: they agree on shape and on failing *)
+  let norm s = if String.length s >= 3 && String.sub s 0 3 = "ok:" then s else "fail" in
+  let run_exec (shapes : z list list) (op : int -> zop) : string =
+    let m = ref (empty_store : z store) in
+    List.iter (fun sh ->
+        let n = int_of_z (size sh) in
+        let (m', _) = zstep_model !m (ZBase (ONew (Z0, sh, List.init (max n 0) (fun _ -> Z0)))) in
+        m := m') shapes;
+    let k = List.length shapes in
+    match zstep_model !m (op k) with
+    | (m', RNew t) -> (match get_t m' t with Some d -> "ok:" ^ fzs d.d_ap.shp | None -> "panic")
+    | (_, RErr) -> "err"
+    | (_, RPanic) -> "panic"
+    | _ -> "?" in
+  let obs calc exec = Printf.sprintf "calc=%s exec=%s rawcalc=%s rawexec=%s" (norm calc) (norm exec) calc exec in
+  register "shapec" (fun a ->
+      let sh = zs a.(0) and axis = z_of_int (int_of_string a.(1)) in
+      let others = if a.(2) = "-" then [] else List.map zs (String.split_on_char ';' a.(2)) in
+      let calc = (match shape_concat sh axis others with Some r -> "ok:" ^ fzs r | None -> "err") in
+      let exec = run_exec (sh :: others) (fun k -> ZConcat (nat_of_int 0, axis, List.init (k - 1) (fun i -> nat_of_int (i + 1)))) in
+      let e = norm exec in
+      { model = obs calc exec; spec = Printf.sprintf "calc=%s exec=%s rawcalc=* rawexec=*" e e;
+        cls = if norm calc = e then "" else if int_of_string a.(1) = -1 then "shapec:axis-allaxes" else "shapec:calc-exec-differ" });
+  register "shaper" (fun a ->
+      let sh = zs a.(0) and axis = z_of_int (int_of_string a.(1)) and reps = zs a.(2) in
+      let calc = (match shape_repeat sh axis reps with
+          | Ok (((ns, _), _), _) -> "ok:" ^ fzs ns | Err -> "err" | Panic -> "panic") in
+      let exec = run_exec [sh] (fun _ -> ZRepeat (nat_of_int 0, axis, reps)) in
+      let e = norm exec in
+      { model = obs calc exec; spec = Printf.sprintf "calc=%s exec=%s rawcalc=* rawexec=*" e e;
+        cls = if norm calc = e then "" else "shaper:calc-exec-differ" });
   register2 "proginv" (fun a impl ->
       let dt = a.(0) in
       let ops = Array.of_list (Prog.split_ops a.(1)) in
